@@ -149,8 +149,9 @@ QQSeq(xs, i, e, st, acc) ==
       ELSE LET r == Ev(x.xs[2], e, st) IN
         IF ~Ok(r) THEN r
         ELSE IF IsSeq(r.v) THEN QQSeq(xs, i + 1, e, r.st, acc \o r.v.xs)
-        ELSE IF r.v.t = "nil" THEN R("unspec", NilV, r.st)
-        ELSE R("err", ErrV("splice-non-seq"), r.st)
+        \* splicing a non-sequence must fail, but WHERE relative to the effects of later
+        \* unquotes is not prescribed (substitution vs. rewrite differ): abstain
+        ELSE R("unspec", NilV, r.st)
     ELSE LET r == QQ(x, e, st) IN
       IF ~Ok(r) THEN r ELSE QQSeq(xs, i + 1, e, r.st, Append(acc, r.v))
 
